@@ -30,6 +30,7 @@ type Parser struct {
 
 	placeholder Atom
 	args        []Term
+	text        bool // reading a text of several terms: arguments left over by one term belong to the next ones
 
 	buf tokenRingBuffer
 	err error // what the lexer reported for the empty token in buf
@@ -145,11 +146,15 @@ func (p *Parser) Term() (Term, error) {
 		return nil, unexpectedTokenError{actual: p.current()}
 	}
 
-	if len(p.args) != 0 {
-		return nil, fmt.Errorf("too many arguments for placeholders: %s", p.args)
+	if len(p.args) != 0 && !p.text {
+		return nil, errTooManyArgs(p.args)
 	}
 
 	return t, nil
+}
+
+func errTooManyArgs(args []Term) error {
+	return fmt.Errorf("too many arguments for placeholders: %s", args)
 }
 
 // Number parses a number term.
